@@ -346,6 +346,7 @@ func c14Recursion(ctx *core.Ctx, r *core.Report, roots []*ssa.Function) {
 
 var c14Cycles = map[string]string{
 	"meta.Augment.clone ↔ meta.Choice.clone ↔ meta.ChoiceCase.clone ↔ meta.Container.clone ↔ meta.Extension.clone ↔ meta.Grouping.clone ↔ meta.List.clone ↔ meta.Module.clone ↔ meta.Notification.clone ↔ meta.Rpc.clone ↔ meta.RpcInput.clone ↔ meta.RpcOutput.clone": "structural descent on the parsed definition tree, which is finite: a `uses` is a leaf of that tree (it is copied, not expanded, by clone), so a grouping cannot contain itself structurally",
+	"meta.cloneTypes":        "structural descent on the member types of a union as written: Builder.Type appends a freshly built *Type to the enclosing type's members and Type.mixin copies members by value, so the nesting is the finite tree the parser built",
 	"meta.Find":              "consumes its path argument: each recursive call gets the remainder after the first '/'",
 	"meta.FindIdentity":      "descends the derived lists of identities, which are acyclic: compiler.identity rejects an identity that is derived from itself (rule guard-backing/identity-cycle)",
 	"meta.MetaPath.toBuffer": "walks the Parent chain of a schema path, which ends at the module",
